@@ -37,6 +37,8 @@ def do_op(op, base, target, version, metafile, scratch, plen=1, alt=False, route
     """Execute one tool operation; returns a JSON-able signature of its observable result."""
     from .create import create_meta, rest_sig
     try:
+        if op == "createfail":
+            op = "create"           # a create that cannot succeed: same call, the failure is the result
         if op == "create":
             # alt: the class-based creator (other hasher classes) instead of the CLI's assembler
             creator = "TorrentFile" if version == 1 else ("TorrentAssembler", "TorrentFileV2", "TorrentFileHybrid")[
@@ -111,13 +113,13 @@ def do_op(op, base, target, version, metafile, scratch, plen=1, alt=False, route
     return {"status": "unknown-op", "sig": ""}
 
 
-def fresh(op, base, target, version, metafile, scratch, plen=1, alt=False, route="lib", align=False):
-    """The same operation in a brand-new interpreter."""
+def fresh(op, base, target, version, metafile, scratch, plen=1, alt=False, route="lib", align=False, cwd=None):
+    """The same operation in a brand-new interpreter (started in `cwd` when paths are spelled relative to it)."""
     req = json.dumps({"op": op, "base": base, "target": target, "version": version, "metafile": metafile,
                       "scratch": scratch, "plen": plen, "alt": alt, "route": route, "align": align})
     env = dict(os.environ, PYTHONPATH=VERIF + os.pathsep + REPO, PYTHONDONTWRITEBYTECODE="1", VERIF_REPO=REPO)
     p = subprocess.run([sys.executable, "-c", "from vh.system import fresh_main; fresh_main()"], input=req.encode(),
-                       stdout=subprocess.PIPE, stderr=subprocess.PIPE, env=env, timeout=120)
+                       stdout=subprocess.PIPE, stderr=subprocess.PIPE, env=env, timeout=120, cwd=cwd)
     line = p.stdout.decode().strip().splitlines()
     for ln in reversed(line):
         if ln.startswith("RESULT "):
@@ -141,6 +143,7 @@ def fresh_main():
 def run_history(case):
     sbx = new_sandbox("sy")
     recs = []
+    cwd0 = os.getcwd()
     try:
         base = os.path.join(sbx, "p")
         os.makedirs(os.path.join(base, "r", "d"))
@@ -152,6 +155,12 @@ def run_history(case):
         metas = {}          # target -> (path of the metafile, version)
         rid = case["id"] * 100
         n = 0
+        # every other history spells the content paths relative to the directory the process works in (and the
+        # fresh interpreters are started there): the working directory is process-lifetime state too
+        opbase = base
+        if case.get("rel"):
+            os.chdir(base)
+            opbase = "."
         for stp in case["steps"]:
             n += 1
             op = stp["op"]
@@ -180,7 +189,7 @@ def run_history(case):
             os.makedirs(scratch_in)
             os.makedirs(scratch_fr)
             plen = stp.get("plen", 1)
-            if op == "create":
+            if op in ("create", "createfail"):
                 version = stp["version"]
                 mf_in = os.path.join(sbx, "o", "%s-%d.torrent" % (target.replace("/", "_"), n))
                 os.makedirs(os.path.dirname(mf_in), exist_ok=True)
@@ -194,8 +203,9 @@ def run_history(case):
             alt = (n + case["id"]) % 2 == 1
             route = stp.get("route", "lib") if op == "create" else stp.get("search", "own")
             align = bool(stp.get("align")) and op == "create"
-            res_fr = fresh(op, base, target, version, mf_fr, scratch_fr, plen, alt, route, align)
-            res_in = do_op(op, base, target, version, mf_in, scratch_in, plen, alt, route, align)
+            res_fr = fresh(op, opbase, target, version, mf_fr, scratch_fr, plen, alt, route, align,
+                           cwd=base if case.get("rel") else None)
+            res_in = do_op(op, opbase, target, version, mf_in, scratch_in, plen, alt, route, align)
             rec = {"id": rid + n, "group": "none", "sysop": op, "target": target, "version": version,
                    "status": res_in["status"], "sig": res_in["sig"], "fresh_status": res_fr["status"],
                    "fresh_sig": res_fr["sig"], "clauses": ["C09.fresh"]}
@@ -224,4 +234,5 @@ def run_history(case):
             rm(scratch_fr)
         return recs
     finally:
+        os.chdir(cwd0)
         rm(sbx)
